@@ -12,7 +12,10 @@
 // verifrt.MergeBool.
 package verifc26
 
-import "github.com/go-git/go-git/v6/internal/verifgit"
+import (
+	"github.com/go-git/go-git/v6/internal/verifgit"
+	"github.com/go-git/go-git/v6/internal/verifrt"
+)
 
 // Split returns the non-empty components of p. '/' always separates;
 // '\\' separates when backslash is set (the NTFS / Win32 view).
@@ -187,4 +190,55 @@ func GitCheckSubmoduleName(name string) bool {
 		}
 	}
 	return true
+}
+
+// ---------- input generators (shared by the harness packages) ----------
+
+// NonASCII atoms: HFS+-ignorable code points (ZWNJ, BOM, RLM, NOMINAL DIGIT
+// SHAPES), a byte that is never valid UTF-8, a truncated 3-byte sequence.
+// Free bytes are ASCII so that the library's Unicode tables are not searched
+// symbolically; the tiers use the first POOL entries.
+var NonASCII = []string{"\xe2\x80\x8c", "\xff", "\xef\xbb\xbf", "\xe2\x80", "\xe2\x80\x8f", "\xe2\x81\xaf"}
+
+func asciiBytes(n int) string {
+	b := verifrt.NondetBytes(n)
+	for i := range b {
+		verifrt.Assume(b[i] < 0x80)
+	}
+	return string(b)
+}
+
+// GenFree: KMIN..K fully symbolic ASCII bytes with up to NA non-ASCII atoms
+// (first POOL entries of NonASCII) inserted at solver-chosen positions.
+func GenFree() string {
+	p := asciiBytes(verifrt.Range(verifrt.Param("KMIN"), verifrt.Param("K")))
+	na := verifrt.Range(0, verifrt.Param("NA"))
+	for j := 0; j < na; j++ {
+		pos := verifrt.Range(0, len(p))
+		lit := verifrt.Range(0, verifrt.Param("POOL")-1)
+		p = p[:pos] + NonASCII[lit] + p[pos:]
+	}
+	return p
+}
+
+// the literal cores of GenLit: the names git's rules are about, in the
+// spellings the three file systems fold together
+var DotGitLits = []string{".git", "git~1", ".g\xe2\x80\x8cit", ".GIT", "\xef\xbb\xbf.git", ".git\xe2\x80\x8f", "GiT~1", ".git\xff", ".gi\xe2\x80t", ".."}
+var DotGitmodulesLits = []string{".gitmodules", "gitmod~1", "gi7eba~1", ".gitmodule\xe2\x80\x8cs", ".GITMODULES", "gitmod~4", "gi7eba~9", "GI7EBA12", ".gitmodules\xff", "gi7eb~10"}
+
+var pres = []string{"", "a/", "a\\", "a/b/"}
+var posts = []string{"", "/x", "\\x", "/"}
+
+// GenLit: pre + head + lit + tail + post. pre is one of the first PRE
+// entries of ("", "a/", "a\\", "a/b/"), post one of the first POST entries of
+// ("", "/x", "\\x", "/"), lit one of the first LITS entries of lits; head and
+// tail are <= H and <= T fully symbolic ASCII bytes (they may be separators,
+// spaces, periods, colons, control characters, ...).
+func GenLit(lits []string) string {
+	pre := pres[verifrt.Range(0, verifrt.Param("PRE")-1)]
+	post := posts[verifrt.Range(0, verifrt.Param("POST")-1)]
+	lit := lits[verifrt.Range(0, verifrt.Param("LITS")-1)]
+	head := asciiBytes(verifrt.Range(0, verifrt.Param("H")))
+	tail := asciiBytes(verifrt.Range(0, verifrt.Param("T")))
+	return pre + head + lit + tail + post
 }
